@@ -71,6 +71,7 @@ Plan generate(uint64_t seed, uint64_t run, bool thorough) {
     static const long nts[] = { 1, 1, 2, 4, 5, 8, 17 };
     p.set("nt", nts[r.below(7)], 1);
     draw_schedule(r, p.sched, (int)p.get("nt"));
+    draw_vary_params(r, p, 0.4);
     return p;
 }
 
@@ -84,6 +85,9 @@ static boost::property_tree::ptree params(const Plan &p) {
     prm.put("max_levels", ml);
     prm.put("direct_coarse", p.get("direct_coarse") != 0);
     prm.put("ncycle", p.get("ncycle")); prm.put("npre", p.get("npre")); prm.put("npost", p.get("npre")); prm.put("pre_cycles", p.get("pre_cycles"));
+    // seeded variation of the smoother parameters (dampings <= 1, fill levels, Chebyshev degree / interval, serial or level-scheduled
+    // solves); no power iterations (thread-seeded), coarsening parameters stay as drawn above (they are part of the finding signatures)
+    apply_vary_params(p, prm, "", "", "relax.", relax_names[p.get("relax")], "", "", false);
     return prm;
 }
 
